@@ -97,7 +97,10 @@ impl Monitor for C06 {
         if let Op::CheckSlashing { .. } = c.op {
             out.count("c06.explicit_checks");
             // within the statement's two base units per pool, with an exact total
-            if post.raw_pool_b.abs_diff(pre.pool_b) > 2 || post.raw_pool_s.abs_diff(pre.pool_s) > 2 || post.raw_pool_b + post.raw_pool_s != pre.pool_b + pre.pool_s {
+            // (a batch closed by the same transaction takes its requests' value out of the pools)
+            let (cb, cs) = crate::monitors::c03::closed_in_step(pre, post);
+            let (sb, ss) = (post.raw_pool_b + cb, post.raw_pool_s + cs);
+            if sb.abs_diff(pre.pool_b) > 2 || ss.abs_diff(pre.pool_s) > 2 || sb + ss != pre.pool_b + pre.pool_s {
                 out.violation(
                     P,
                     "check_stores_prediction",
@@ -137,7 +140,8 @@ impl Monitor for C06 {
                     }
                     for (b, name, uv, loss) in &parts {
                         // |loss - L*u/U| <= 4
-                        if !within(*loss, l, *uv, total_u, 4) {
+                        // the statement gives no figure for this sentence: a couple of units per batch and token type
+                        if !within(*loss, l, *uv, total_u, 4 + 2 * parts.len() as u128) {
                             out.violation(
                                 P,
                                 "unbonding_loss_pro_rata",
